@@ -344,6 +344,11 @@ def _const_text(kind, val):
 HEADER_RE = re.compile(r'^(?P<name>[A-Za-z_][A-Za-z_0-9]*)\s*(?:\[(?P<p1>[^\]]*)\]|\((?P<p2>[^)]*)\)|::(?P<p3>[\w:, ]+?))?\s*(?:<\s*(?P<base>\w+)\s*)?(?P<sep>::=|:=|:|=)', re.S)
 
 
+# words the grammar's `literal` rule reads as constants, not as strings: `boolean`, `none` and - through `value`, its JSON-like
+# alternative - `true`, `false`, `null` (C13.R3 checks on every run that _tatsu.ebnf still defines them so)
+PARAM_CONSTANTS = {'True': True, 'False': False, 'None': None, 'true': True, 'false': False, 'null': None}
+
+
 def _param_value(t: str):
     """value of a rule parameter as the grammar language reads it (`literal`): a quoted string is a str, True/False/None the
     constants, a number an int/float, a bare word or a::b path a str"""
@@ -352,10 +357,8 @@ def _param_value(t: str):
             return ast.literal_eval(t)
         except (SyntaxError, ValueError):
             return t
-    if t in ('True', 'False'):
-        return t == 'True'
-    if t == 'None':
-        return None
+    if t in PARAM_CONSTANTS:
+        return PARAM_CONSTANTS[t]
     if re.fullmatch(r'0[xX][0-9a-fA-F]+', t):
         return int(t, 16)
     if re.fullmatch(r'[-+]?\d+', t):
